@@ -1325,6 +1325,22 @@ void sym_assume_cmp(double a, int op, double b)
     add_pc(cmp_term(op, ex(a), ex(b)));
     ensure_model();
 }
+void sym_assume_eq_implies_eq(int n, const double* a, const double* b, double c, double d)
+{
+    if (concrete_mode) return;
+    if (special(c) || special(d)) return;
+    if (!isbox(c) && !isbox(d)) return;
+    z3::expr prem = C->bool_val(true);
+    for (int i = 0; i < n; ++i)
+    {
+        if (sym_same(a[i], b[i])) continue;
+        if (special(a[i]) || special(b[i])) return;
+        if (!isbox(a[i]) && !isbox(b[i])) return; // different concrete values: premise false
+        prem = prem && (ex(a[i]) == ex(b[i]));
+    }
+    add_pc(z3::implies(prem, ex(c) == ex(d)));
+    ensure_model();
+}
 void sym_check_cmp(double a, int op, double b, const char* lab)
 {
     if (!isbox(a) && !isbox(b))
